@@ -87,7 +87,9 @@ def run(ctx):
         # relay: orders of sends (s<i>) and replies (r<i>) over destinations 0,1 (IPv4) and 2 (IPv6)
         orders = [["s0", "r0"], ["s0", "s1", "r0", "r1"], ["s0", "s1", "r1", "r0"], ["s0", "s2", "r0", "r2"], ["s2", "s0", "r2", "r0"],
                   ["s0", "s1", "s2", "r0", "r1", "r2"], ["s1", "s0", "s1", "r0", "r1", "s2", "r1", "r2", "r0"],
-                  ["s2", "s1", "r2", "s0", "r1", "r0", "r2"]]
+                  ["s2", "s1", "r2", "s0", "r1", "r0", "r2"],
+                  # n<i>: the same destination given by NAME ("localhost") and port: two destinations share one name
+                  ["n0", "n1", "n0", "n1"], ["n1", "n0", "s0", "n1", "s1"], ["s0", "n1", "n0", "s1", "n1"]]
         if ctx.thorough():
             for p in itertools.permutations(["s0", "s1", "s2"]):
                 for q in itertools.permutations(["r0", "r1", "r2"]):
